@@ -206,10 +206,10 @@ func (b *TrieBucket) Suggest(prefix string, limit int) (rs []string) {
 
 // FindValuesByRegexp returns values by regexp expression.
 func (b *TrieBucket) FindValuesByRegexp(rp *regexp.Regexp, ids []uint32) []uint32 {
-	literalPrefix, _ := rp.LiteralPrefix()
-	literalPrefixByte := strutil.String2ByteSlice(literalPrefix)
+	// NOTE: rp.Match is unanchored, so rp.LiteralPrefix() is the prefix of the MATCH, not of the key:
+	// it must not narrow the iteration (`abc` matches the key `xabc`).
 	for _, kv := range b.kvs {
-		itr := kv.tree.NewPrefixIterator(literalPrefixByte)
+		itr := kv.tree.NewPrefixIterator(nil)
 		for itr.Valid() {
 			if rp.Match(itr.Key()) {
 				ids = append(ids, itr.Value())
